@@ -276,6 +276,14 @@ def check(spec):
         if is_err(res):
             if any(s[0] == "infeasible" for s in refs):
                 return out.drop("split_interval_infeasible")   # documented: raises (DESIGN 6.1 observations)
+            # every interval is feasible: does another backend behind the same translation solve it?
+            for alt in (["SCIP", "SCIPY"] if mip else ["SCIPY", "CLARABEL", "SCIP"]):
+                if alt == solver:
+                    continue
+                k2 = dict(kw, solver=alt)
+                r2 = eao_call(r.op.optimize, **k2)
+                if not is_err(r2) and not isinstance(r2, str):
+                    return out.drop("backend_disagreement:" + str(solver))
             return out.fail("split optimize raised " + res.short())
         if isinstance(res, str):
             return out.drop("split_status_string")
